@@ -802,9 +802,19 @@ impl Exec {
                     } else {
                         val = Some(match base {
                             "from" => LeanString::from(s.as_str()),
-                            "from_string" => LeanString::from(s.clone()),
+                            "from_string" => {
+                                // a String with spare capacity: the conversion must not keep it
+                                let mut owned = String::with_capacity(s.len() + 24);
+                                owned.push_str(&s);
+                                LeanString::from(owned)
+                            }
                             "from_ref_string" => LeanString::from(&s),
                             "from_box" => LeanString::from(s.clone().into_boxed_str()),
+                            _ if s.len() % 2 == 0 => {
+                                let mut owned = String::with_capacity(s.len() + 40);
+                                owned.push_str(&s);
+                                LeanString::from(std::borrow::Cow::<str>::Owned(owned))
+                            }
                             _ => LeanString::from(std::borrow::Cow::Borrowed(s.as_str())),
                         });
                     }
